@@ -8,6 +8,6 @@ CONSTANTS MaxDepth = 8
           CbBelow = 3
           AuxDepth = 8
           Lean = FALSE
-          Repaired = {7, 9}
+          Repaired = {7, 9, 10}
 INVARIANTS DAndEmit EmitOpts
 CHECK_DEADLOCK FALSE
